@@ -4,11 +4,11 @@ from tok_common import TokError, imm, split_ops, parse_mark
 
 REG = re.compile(r"^(X([0-9]|[12][0-9]|30)|SP|XZR)$")
 IDENT = re.compile(r"^[A-Za-z_.$][\w.$]*$")
-MEM = re.compile(r"^\[\s*(\w+)\s*(,\s*(-?\d+)\s*)?\](!)?$")
+MEM = re.compile(r"^\[\s*(\w+)\s*(,\s*#?(-?\d+)\s*)?\](!)?$")
 KNOWN = {"ADD", "SUB", "MUL", "SDIV", "MSUB", "B", "BR", "BL", "ADR", "MOV", "MOVZ", "MOVN", "MOVK", "LDR", "LDP",
          "STR", "STP", "CMP", "BEQ", "BNE", "BLT", "BLE", "BGT", "BGE", "RET",
          # forms the backend does not print today but a different instruction selection may (modelled in spec/A64.tla)
-         "CBZ", "CBNZ", "NEG", "MVN", "AND", "ORR", "EOR", "LSL", "LSR", "ASR"}
+         "CBZ", "CBNZ", "NEG", "MVN", "AND", "ORR", "EOR", "LSL", "LSR", "ASR", "TBZ", "TBNZ", "MADD", "NOP"}
 ALIASES = {"B.EQ": "BEQ", "B.NE": "BNE", "B.LT": "BLT", "B.LE": "BLE", "B.GT": "BGT", "B.GE": "BGE"}
 
 def operand(s):
@@ -21,9 +21,9 @@ def operand(s):
             raise TokError("memory base is not a register: " + s)
         return {"k": "mem", "base": m.group(1), "off": int(m.group(3) or 0), "pre": bool(m.group(4)),
                 "hasoff": m.group(3) is not None}
-    if re.match(r"^-?\d+$", s):
-        return imm(s)
-    m = re.match(r"^LSL\s+(\d+)$", s)
+    if re.match(r"^#?-?\d+$", s):
+        return imm(s.lstrip("#"))
+    m = re.match(r"^LSL\s+#?(\d+)$", s)
     if m:
         return {"k": "lsl", "n": int(m.group(1))}
     if IDENT.match(s):
